@@ -354,6 +354,7 @@ pub fn run(ctx: &Ctx, rep: &Report) {
     rep.outcome("lon:position-within-10m", total_lon_cells);
     drop(st);
     pairs_through_decode_positions(ctx, rep);
+    sequences(ctx, rep, &te, &to);
     finish(rep, thorough);
 }
 
@@ -479,6 +480,123 @@ fn stateful_refs(lat: f64, lon: f64) -> [Option<Position>; 3] {
     [None, Some(Position { latitude: (lat + 0.5).clamp(-89.0, 89.0), longitude: lon + 0.5 }), Some(Position { latitude: (lat - 12.0).clamp(-89.0, 89.0), longitude: lon + 14.0 })]
 }
 
+/// Two calls on one thread with the SAME four field values and different parity labels. The four labellings of one
+/// quadruple of fields (even/odd, odd/even, even/even, odd/odd) are different inputs: a same-parity pair never has a
+/// position, and a mixed pair must give what it gives after unrelated calls, whatever was decoded just before.
+fn seq_quad(te: &AirbornePosition, to: &AirbornePosition, f: [u32; 4], rep: &Report, wit: &Value) -> u64 {
+    let lab = [(false, true), (true, false), (false, false), (true, true)];
+    let name = ["even/odd", "odd/even", "even/even", "odd/odd"];
+    let mk = |(p0, p1): (bool, bool)| {
+        let mut x = if p0 { *to } else { *te };
+        x.lat_cpr = f[0];
+        x.lon_cpr = f[1];
+        let mut y = if p1 { *to } else { *te };
+        y.lat_cpr = f[2];
+        y.lon_cpr = f[3];
+        (x, y)
+    };
+    let flush = || {
+        // unrelated pairs between the judged calls: whatever the subject remembers is pushed out
+        for i in 0..8u32 {
+            let mut x = *te;
+            x.lat_cpr = 40_000 + i;
+            x.lon_cpr = 50_000 + 3 * i;
+            let mut y = *to;
+            y.lat_cpr = 60_000 + 5 * i;
+            y.lon_cpr = 70_000 + 7 * i;
+            let _ = guarded(|| airborne_position(&x, &y));
+        }
+    };
+    let show = |r: &Result<Option<Position>, String>| match r {
+        Ok(Some(p)) => format!("({:.6},{:.6})", p.latitude, p.longitude),
+        Ok(None) => "no position".to_string(),
+        Err(e) => format!("panic: {e}"),
+    };
+    let mut alone = Vec::new();
+    for l in lab {
+        flush();
+        let (x, y) = mk(l);
+        alone.push(guarded(|| airborne_position(&x, &y)).map(|o| o.map(|p| (p.latitude.to_bits(), p.longitude.to_bits()))));
+    }
+    let mut calls = 4;
+    for i in 0..4 {
+        for j in 0..4 {
+            if i == j {
+                continue;
+            }
+            flush();
+            let (x, y) = mk(lab[i]);
+            let _ = guarded(|| airborne_position(&x, &y));
+            let (x, y) = mk(lab[j]);
+            let r = guarded(|| airborne_position(&x, &y));
+            calls += 2;
+            let got = r.clone().map(|o| o.map(|p| (p.latitude.to_bits(), p.longitude.to_bits())));
+            let mut w = wit.clone();
+            if let Some(o) = w.as_object_mut() {
+                o.insert("fields".into(), json!(f));
+                o.insert("first".into(), json!(i));
+                o.insert("second".into(), json!(j));
+            }
+            if j >= 2 && matches!(r, Ok(Some(_))) {
+                rep.violation("sequence:same-parity-position", format!("fields {f:?}: the {} pair decoded right after the {} pair with the same field values yields {}", name[j], name[i], show(&r)), w);
+                return calls;
+            }
+            if got != alone[j] {
+                rep.violation("sequence:order-dependent", format!("fields {f:?}: the {} pair decoded right after the {} pair with the same field values gives {}, but after unrelated pairs it gives another result", name[j], name[i], show(&r)), w);
+                return calls;
+            }
+        }
+    }
+    calls
+}
+
+fn sequences(ctx: &Ctx, rep: &Report, te: &AirbornePosition, to: &AirbornePosition) {
+    let stride: i64 = if ctx.thorough() { 64 } else { 512 };
+    let nbins = 2 * LAT_MAX_U / 118 + 2;
+    let total = AtomicU64::new(0);
+    let quads = AtomicU64::new(0);
+    par_ranges(ctx.threads, nbins as u64, 4096, |lo, hi| {
+        let a0 = (-LAT_MAX_U + 118 * lo as i64).min(LAT_MAX_U);
+        let b0 = (-LAT_MAX_U + 118 * hi as i64).min(LAT_MAX_U);
+        if a0 >= b0 {
+            return;
+        }
+        let mut i = 0i64;
+        let mut c_calls = 0;
+        let mut c_quads = 0;
+        for_cells(59, 60, a0, b0, |a, b| {
+            i += 1;
+            if (i + lo as i64) % stride != 0 || stopped() {
+                return;
+            }
+            let c = lat_cell(a, b);
+            let (n_e, n_o) = (c.nl0.max(1) as f64, (c.nl1 as f64 - 1.0).max(1.0));
+            for lon in [0.0003f64, 12.34, 209.3] {
+                let xe = ((131072.0 * (lon % (360.0 / n_e)) / (360.0 / n_e) + 0.5).floor() as i64).rem_euclid(TWO17) as u32;
+                let xo = ((131072.0 * (lon % (360.0 / n_o)) / (360.0 / n_o) + 0.5).floor() as i64).rem_euclid(TWO17) as u32;
+                c_calls += seq_quad(te, to, [code17(c.k0), xe, code17(c.k1), xo], rep, &json!({"kind":"sequence","a":a,"b":b}));
+                c_quads += 1;
+            }
+        });
+        total.fetch_add(c_calls, Ordering::Relaxed);
+        quads.fetch_add(c_quads, Ordering::Relaxed);
+    });
+    // quadruples whose even and odd reports carry the same field values (points next to a zone corner such as 0N 0E)
+    let mut corner = 0;
+    for v in [0u32, 1, 2, 5, 77, 4096, 65_535, 65_536, 131_070, 131_071] {
+        for w in [0u32, 1, 3, 65_536, 131_071] {
+            for f in [[v, w, v, w], [v, v, v, v], [v, w, v, (w + 1) % 131_072], [v, w, (v + 1) % 131_072, w]] {
+                total.fetch_add(seq_quad(te, to, f, rep, &json!({"kind":"sequence"})), Ordering::Relaxed);
+                corner += 1;
+            }
+        }
+    }
+    let q = quads.load(Ordering::Relaxed) + corner;
+    rep.eval(total.load(Ordering::Relaxed));
+    rep.part("two-call sequences: the four parity labellings of one quadruple of field values, every ordered pair", q, json!({"lat_cell_stride": stride, "longitudes": 3, "corner_quadruples": corner, "calls": total.load(Ordering::Relaxed)}));
+    rep.outcome("sequence:quadruples", q);
+}
+
 fn finish(rep: &Report, thorough: bool) {
     let ev = rep.evaluations.load(Ordering::Relaxed);
     rep.trans(ev);
@@ -512,6 +630,12 @@ pub fn replay(w: &Value, rep: &Report) {
     let (a, b) = (w["a"].as_i64().unwrap_or(0), w["b"].as_i64().unwrap_or(1));
     let latest_odd = w["latest_odd"].as_bool().unwrap_or(true);
     match w["kind"].as_str() {
+        Some("sequence") => {
+            let f: Vec<u32> = w["fields"].as_array().map(|a| a.iter().map(|x| x.as_u64().unwrap_or(0) as u32).collect()).unwrap_or_default();
+            if f.len() == 4 {
+                seq_quad(&te, &to, [f[0], f[1], f[2], f[3]], rep, &json!({"kind":"sequence"}));
+            }
+        }
         Some("lat") => {
             let c = lat_cell(a, b);
             if let Err((cl, what)) = check_lat_cell(&te, &to, &c, latest_odd) {
